@@ -49,12 +49,26 @@ theorem C05_no_strand {nc nd : Nat} {s : St} (h : Reachable nc nd s) (hne : s.ex
 theorem C05_done_after_predecessors {nc nd : Nat} {s : St} (h : Reachable nc nd s) (d : Nat)
     (hd : s.doners[d]? = some .returned) (snap : List Item) (hs : s.doneSnap[d]? = some snap) :
     ∀ it ∈ snap, it ∈ s.executed := by
-  sorry
+  exact (opsInv_of_reachable h).done.donerRet d snap hd hs
 
 /-- The snapshot is what it says: when `Done` is called, the snapshot becomes the items accepted so far. -/
 theorem C05_done_snapshot {nc nd : Nat} {s s' : St} (hr : Reachable nc nd s) (d : Nat)
     (h : step s (.doneBegin d) = some s') : s'.doneSnap[d]? = some s.accepted := by
-  sorry
+  have hlen := (opsInv_of_reachable hr).snap_length
+  simp only [step] at h
+  split at h
+  · rename_i hd
+    have hdlt : d < s.doneSnap.length := by
+      rw [hlen]
+      rcases Nat.lt_or_ge d s.doners.length with h1 | h1
+      · exact h1
+      · rw [List.getElem?_eq_none h1] at hd; cases hd
+    split at h
+    · cases h
+    · cases h
+      have hsn := (tryEnqueue_frame s (.waiter d)).2.1
+      simp [setAt, hsn, hdlt]
+  · cases h
 
 /-- After a graceful close nothing is accepted any more … -/
 theorem C05_nothing_accepted_after_close {nc nd : Nat} {s s' : St} (h : Reachable nc nd s)
